@@ -95,6 +95,59 @@ def chunk_strings(x, sizes):
     return out
 
 
+# ---- hardening: representations of the same stream / parameters, query spellings ------------------------------
+# non-zero sample values standing for "high" (docstring of edges: every non-zero value is a logical high)
+HIGHS = {'uint8': [1, 2, 255, 128], 'int32': [1, -1, 256, -65536, 7], 'float64': [0.5, -0.25, 1e-300, 3.0, float('inf')]}
+REP_OPTIONS = {
+    'dtype': ['uint8', 'int32', 'float64'],          # default: bool
+    'm_np': [1],                                     # min_samples as a NumPy integer
+    'init_rep': ['int', 'npbool', 'int2'],           # initial_state as int 0/1, np.bool_, 0/2 (docstring: {int, bool})
+    'spell': ['pos', 'allkw', 'defaults'],           # all positional / all keyword / arguments equal to the default omitted
+    'fs_rep': ['int', 'np'],                         # fs as int (when integral) / np.float64
+    'chan': ['default'],                             # annotated input without channel labels
+    'meta': [1],                                     # annotated input carrying metadata
+    's0np': [1],                                     # s0 of the annotated chunks as np.int64
+    'fs_explicit': [1],                              # annotated input and fs= given as well (same value)
+}
+RANGE_OPS = ('range', 'nprange', 'trange', 'rangeS')
+LATEST_OPS = ('latest', 'latest1', 'tlatest', 'latestS')
+COMBINE_OPS = ('combine', 'combineT', 'combineS')
+FLAGS = ('TS-MISMATCH', 'REPEAT-DIFFERS', 'BLOCK-MODIFIED')
+
+
+def expand(c):
+    """compact description of a very long stream -> the plain stream case it stands for"""
+    if c.get('kind') != 'big':
+        return c
+    import random
+    r = random.Random(c['seed'])
+    m, target = c['m'], c['n']
+    runs, total = [], 0
+    while total < target:
+        if c.get('dense'):
+            l = m + 1 + r.choice([0, 0, 1, 2])
+        else:
+            l = m + 1 + r.choice([0, 0, 1, 2, r.randint(0, 3 * m), r.randint(0, target // 6)])
+        runs.append(l)
+        total += l
+    x = stream_from_runs(r.random() < 0.5, runs)
+    sizes, left, tiny = [], len(x), 0
+    while left:
+        k = r.choice([1, 1, 2, m, m + 1, m + 2, 7, 4096, 50000, r.randint(1, 70000)])
+        if k <= m + 1:
+            tiny += 1
+            if tiny > 120:
+                k = 30000
+        k = min(k, left)
+        sizes.append(k)
+        left -= k
+    d = {k: v for k, v in c.items() if k not in ('seed', 'n', 'dense')}
+    d.update(kind='stream', chunks=chunk_strings(x, sizes),
+             queries=[['combine', list(range(len(sizes)))], ['latest', len(sizes) - 1, -sizes[-1], 0],
+                      ['combineS', list(range(len(sizes) // 2, len(sizes)))], ['range', len(sizes), c['s0'] - m + sum(sizes) - 5, c['s0'] - m + sum(sizes)]])
+    return d
+
+
 def cuts_to_sizes(n, cuts):
     pts = [0] + sorted(set(c for c in cuts if 0 < c < n)) + [n]
     return [b - a for a, b in zip(pts, pts[1:])]
@@ -122,6 +175,14 @@ class C13(Spec):
              'several first s0; chunkings: a boundary at every offset 0..m+1 before/after each edge, random compositions, '
              'single-sample chunks, one chunk, empty chunks; plus queries (get_range_samples, get_latest_samples, combine_events) '
              'on the emitted blocks, unclean random streams (correspondence only) and malformed constructions. '
+             'Hardening: sample values as uint8/int32/float64 with arbitrary non-zero highs, plain (1, n) input, min_samples / s0 / fs / '
+             'initial_state as NumPy scalars or ints, all-positional / all-keyword / defaults-omitted construction, unlabelled or '
+             'metadata-carrying annotated input; queries spelled with NumPy integers, in seconds (get_range / get_latest, when the float '
+             'round trip is exact), with ub omitted, with a tuple, and queries on query results (range of a merge, merge of ranges); '
+             'every query is repeated after the caller overwrote its first result and every emitted block is re-read after all '
+             'queries; the caller overwrites each chunk after sending it and each block after receiving it; two detectors differing '
+             'in one parameter are fed the same chunk objects alternately; per run four lives of 2^14..2^17 samples (m up to 1000, '
+             'thousands of events, 1-sample next to 50000-sample chunks, first s0 beyond 2^31). '
              'Non-trivial = the stream has at least one transition and at least two chunks.')
     exhaustive_note = {
         'thorough': 'all streams of <= 3 runs with lengths in {m+1, m+2} (m = 1, 2; for m = 3: <= 2 runs; both initial states, both first values) '
@@ -139,39 +200,78 @@ class C13(Spec):
 
     # ---- generation ---------------------------------------------------
     def _queries(self, rng, c, nblocks, starts):
-        """queries around the block spans; starts[k] = (start, end) expected of block k"""
+        """queries around the block spans; starts[k] = (start, end) expected of block k.  Spellings vary (sample numbers as
+        NumPy integers, the time-based get_range / get_latest, ub of get_latest_samples omitted, a tuple for combine_events);
+        the ...S forms keep a successful result as a further block, so that later queries address query results."""
         q = []
         if nblocks == 0:
             return q
         m = c['m']
-        for _ in range(rng.randint(1, 3)):
-            k = rng.randrange(nblocks)
-            s, e = starts[k]
+        spans = list(starts)
+
+        def inside(k, a, b):
+            return spans[k][0] <= a <= b <= spans[k][1]
+        for _ in range(rng.randint(1, 4)):
+            k = rng.randrange(len(spans))
+            s, e = spans[k]
+            if e < s:
+                continue
             a = rng.randint(s - 1, e + 1)
             b = rng.randint(a - 1, e + m + 1)
-            q.append(['range', k, a, b])
-        k = rng.randrange(nblocks)
-        s, e = starts[k]
-        q.append(['range', k, s, e])
-        q.append(['latest', k, -rng.randint(0, e - s + 1), rng.choice([0, 0, 0, 1, -1])])
+            op = rng.choice(['range', 'range', 'nprange', 'trange', 'rangeS'])
+            if op == 'rangeS':
+                if inside(k, a, b):
+                    spans.append((a, b))
+                else:
+                    op = 'range'
+            q.append([op, k, a, b])
+        k = rng.randrange(len(spans))
+        s, e = spans[k]
+        q.append([rng.choice(['range', 'nprange', 'trange']), k, s, e])
+        lb, ub = -rng.randint(0, max(0, e - s) + 1), rng.choice([0, 0, 0, 1, -1])
+        op = rng.choice(['latest', 'latest1', 'tlatest', 'latestS'])
+        if op == 'latest1':
+            ub = 0
+        if op == 'latestS':
+            if inside(k, lb + e, ub + e):
+                spans.append((lb + e, ub + e))
+            else:
+                op = 'latest'
+        q.append([op, k, lb, ub])
         i = rng.randrange(nblocks)
         j = rng.randint(i, min(nblocks - 1, i + 4))
-        q.append(['combine', list(range(i, j + 1))])
+        op = rng.choice(COMBINE_OPS)
+        q.append([op, list(range(i, j + 1))])
+        if op == 'combineS':
+            spans.append((spans[i][0], spans[j][1]))
+            k = len(spans) - 1
+            s, e = spans[k]
+            a = rng.randint(s, e)
+            q.append([rng.choice(['range', 'rangeS']), k, a, rng.randint(a, e)])
+            if q[-1][0] == 'rangeS':
+                spans.append((q[-1][2], q[-1][3]))
         if rng.random() < 0.3:
-            ks = [rng.randrange(nblocks) for _ in range(rng.randint(0, 3))]
-            q.append(['combine', ks])
+            ks = [rng.randrange(len(spans)) for _ in range(rng.randint(0, 3))]
+            q.append([rng.choice(['combine', 'combineT']), ks])
         return q
 
-    def _mk(self, rng, m, init, first, lengths, sizes, detect=None, mode=None, s0=None, queries=True, x=None):
+    @staticmethod
+    def _rand_rep(rng, p=0.3):
+        return {k: rng.choice(v) for k, v in REP_OPTIONS.items() if rng.random() < p}
+
+    def _mk(self, rng, m, init, first, lengths, sizes, detect=None, mode=None, s0=None, queries=True, x=None, rep=None, **extra):
         if x is None:
             x = stream_from_runs(first, lengths)
         mode = mode or rng.choice(['plain', 'pd2'])
         if s0 is None:
             s0 = rng.choice([0, 100, -5, 7, 12345, 2 ** 31 - 3, 2 ** 31 + 11, 2 ** 32 + 5, 2 ** 40])   # incl. beyond 32 bits
-        if mode == 'plain':
+        if mode in ('plain', 'plain2'):
             s0 = 0
         c = {'kind': 'stream', 'm': m, 'init': int(init), 's0': s0, 'detect': detect or rng.choice('bbrf'),
              'mode': mode, 'fs': rng.choice(FS_CHOICES), 'chunks': chunk_strings(x, sizes), 'queries': []}
+        if rep:
+            c['rep'] = rep
+        c.update(extra)
         if queries:
             spans, a = [], s0 - m
             for n in sizes:
@@ -230,6 +330,7 @@ class C13(Spec):
             x = [rng.random() < p for _ in range(n)]
             sizes = rng.chunks(n, max_parts=6) if n else [0]
             yield self._mk(rng, m, rng.choice([True, False]), None, None, sizes, x=x)
+        yield from self.hardening_cases(rng, tier)
         # -- malformed
         for m in (0, -1, -7):
             yield {'kind': 'stream', 'm': m, 'init': 0, 's0': 0, 'detect': 'b', 'mode': 'plain', 'fs': 1000.0,
@@ -253,15 +354,69 @@ class C13(Spec):
                                     yield self._mk(rng, m, init, first, list(ls), cuts_to_sizes(n, cuts),
                                                    detect='b', mode='plain', queries=False)
 
+    def _clean(self, rng, m=None, **kw):
+        m = m or rng.randint(1, 6)
+        ls = self._random_lengths(rng, m)
+        if len(ls) > 1 and ls[0] <= m:
+            ls[0] = m + 1
+        n = sum(ls)
+        sizes = rng.chunks(n, max_parts=rng.choice([2, 4, 8, n]))
+        if rng.random() < 0.2:
+            sizes.insert(rng.randint(0, len(sizes)), 0)
+        return self._mk(rng, m, rng.choice([True, False]), rng.choice([True, False]), ls, sizes, **kw)
+
+    def hardening_cases(self, rng, tier):
+        """HARDENING.md items 1-7 (see notes/C13.md, section "hardening")."""
+        quick = tier == 'quick'
+        # 1/2. representations of the stream and of the parameters, call spellings, plain (1, n) input
+        for _ in range(600 if quick else 6000):
+            yield self._clean(rng, rep=self._rand_rep(rng), mode=rng.choice(['plain', 'plain2', 'pd2']))
+        for key, opts in REP_OPTIONS.items():            # every option at least a few times on its own
+            for o in opts:
+                for _ in range(4):
+                    yield self._clean(rng, rep={key: o}, mode=rng.choice(['plain', 'plain2', 'pd2', 'pd2']))
+        # 5/6. the caller re-uses its buffer (overwrites every chunk after sending it) and overwrites the emitted blocks
+        for _ in range(200 if quick else 3000):
+            yield self._clean(rng, rep=self._rand_rep(rng, 0.15), scrin=1, mode=rng.choice(['plain', 'plain2', 'pd2']))
+            yield self._clean(rng, queries=False, scrin=rng.randint(0, 1), scrout=1)
+        # 5/7. two detectors differing in exactly one parameter, fed the same chunk objects alternately
+        for _ in range(200 if quick else 3000):
+            a = self._clean(rng, queries=False, rep=self._rand_rep(rng, 0.1))
+            b = dict(a)
+            what = rng.choice(['m', 'detect', 'init'])
+            if what == 'm':
+                b['m'] = rng.choice([v for v in range(1, 8) if v != a['m']])
+            elif what == 'detect':
+                b['detect'] = rng.choice([v for v in 'brf' if v != a['detect']])
+            else:
+                b['init'] = 1 - a['init']
+            yield {'kind': 'dual', 'a': a, 'b': b}
+        # 3. scale: >= 2^16 samples in one life, thousands of events, debounce lengths in the hundreds,
+        #    chunks of 1 sample next to chunks of tens of thousands, first s0 beyond 2^31
+        bigs = [(1, 2 ** 14, 1), (3, 2 ** 16, 0), (50, 2 ** 17, 0), (1000, 2 ** 17, 0)]
+        if not quick:
+            bigs += [(2, 2 ** 16, 1), (7, 2 ** 20, 0), (300, 2 ** 18, 0)]
+        for m, n, dense in bigs:
+            mode = rng.choice(['plain', 'pd2'])
+            yield {'kind': 'big', 'm': m, 'n': n, 'dense': dense, 'seed': rng.randrange(10 ** 6), 'init': rng.randint(0, 1),
+                   's0': 0 if mode == 'plain' else rng.choice([2 ** 31 - 70000, 2 ** 32 - 5, 2 ** 40]), 'detect': rng.choice('bbrf'),
+                   'mode': mode, 'fs': rng.choice(FS_CHOICES)}
+
     # ---- both sides ----------------------------------------------------
     def model_lines(self, c):
+        if c['kind'] == 'dual':
+            return self.model_lines(c['a']) + self.model_lines(c['b'])
+        c = expand(c)
         lines = [f"new {c['m']} {c['init']} {c['s0']} {c['detect']}"]
         lines += [f'send {ch}' for ch in c['chunks']]
         for q in c['queries']:
-            if q[0] == 'combine':
-                lines.append('combine ' + (','.join(str(k) for k in q[1]) or '-'))
+            op = q[0]
+            if op in COMBINE_OPS:
+                lines.append(('combineS ' if op == 'combineS' else 'combine ') + (','.join(str(k) for k in q[1]) or '-'))
+            elif op in RANGE_OPS:
+                lines.append(f"{'rangeS' if op == 'rangeS' else 'range'} {q[1]} {q[2]} {q[3]}")
             else:
-                lines.append(' '.join(str(v) for v in q))
+                lines.append(f"{'latestS' if op == 'latestS' else 'latest'} {q[1]} {q[2]} {q[3]}")
         return lines
 
     @staticmethod
@@ -276,25 +431,125 @@ class C13(Spec):
             line += ' TS-MISMATCH'
         return line
 
-    def impl_lines(self, c):
-        from psiaudio import pipeline as P
+    # -- the real code ------------------------------------------------------
+    @staticmethod
+    def _fs_obj(c):
+        rep = c.get('rep') or {}
+        fs = c['fs']
+        if rep.get('fs_rep') == 'int' and fs == int(fs):
+            return int(fs)
+        if rep.get('fs_rep') == 'np':
+            return np.float64(fs)
+        return fs
+
+    def _detector(self, P, c, target):
+        rep = c.get('rep') or {}
+        m = np.int64(c['m']) if rep.get('m_np') else c['m']
+        init = {'int': int(c['init']), 'npbool': np.bool_(c['init']), 'int2': 2 * int(c['init'])}.get(rep.get('init_rep'), bool(c['init']))
+        annotated = c['mode'] == 'pd2'
+        fs = self._fs_obj(c) if (not annotated or rep.get('fs_explicit')) else 'auto'
+        det = DET[c['detect']]
+        spell = rep.get('spell')
+        if spell == 'pos':
+            return P.edges(m, target, init, fs, det)
+        if spell == 'allkw':
+            return P.edges(min_samples=m, target=target, initial_state=init, fs=fs, detect=det)
+        if spell == 'defaults':
+            kw = {}
+            if c['init']:
+                kw['initial_state'] = init
+            if fs != 'auto':
+                kw['fs'] = fs
+            if det != 'both':
+                kw['detect'] = det
+            return P.edges(m, target, **kw)
+        return P.edges(m, target, initial_state=init, fs=fs, detect=det)
+
+    def _chunk(self, P, c, bits, s0, k):
+        rep = c.get('rep') or {}
+        b = np.array(bits, dtype=bool)
+        dt = rep.get('dtype', 'bool')
+        if dt == 'bool':
+            a = b
+        else:
+            hi = HIGHS[dt]
+            vals = np.array([hi[(i + k) % len(hi)] for i in range(len(bits))], dtype=dt)
+            a = np.where(b, vals, np.zeros(len(bits), dtype=dt)).astype(dt)
+        if c['mode'] == 'plain2':
+            a = a[np.newaxis]
+        elif c['mode'] == 'pd2':
+            kw = {}
+            if rep.get('chan') != 'default':
+                kw['channel'] = ['ttl']
+            if rep.get('meta'):
+                kw['metadata'] = {'m': 1}
+            a = P.PipelineData(a[np.newaxis], self._fs_obj(c), s0=np.int64(s0) if rep.get('s0np') else s0, **kw)
+        return a
+
+    @staticmethod
+    def _scribble_input(a):
+        """the caller re-uses its acquisition buffer: everything in the chunk it sent is overwritten"""
+        if a.size:
+            a[...] = (np.asarray(a) == 0).astype(a.dtype)
+        if hasattr(a, 's0'):
+            a.s0 = a.s0 + 999
+            a.fs = a.fs * 2
+            if isinstance(a.channel, list):
+                a.channel[:] = ['x'] * len(a.channel)
+            a.metadata['scribbled'] = True
+
+    @staticmethod
+    def _scribble_events(ev):
+        if len(ev.events):
+            ev.events['sample'] = ev.events['sample'] + 1000
+            ev.events['ts'] = -1.0
+            ev.events['event'] = 'x'
+
+    def _query(self, P, out, q, fs):
+        op = q[0]
+        if op in COMBINE_OPS:
+            if not all(k < len(out) for k in q[1]):
+                return None
+            bl = [out[k] for k in q[1]]
+            return P.combine_events(tuple(bl) if op == 'combineT' else bl)
+        if q[1] >= len(out):
+            return None
+        b = out[q[1]]
+        x, y = q[2], q[3]
+        # the time-based spellings are used when the float round trip sample -> seconds -> sample is exact
+        exact = all(int(np.round((v / fs) * fs)) == v for v in (x, y, x + int(b.end), y + int(b.end)))
+        if op in ('range', 'rangeS') or (op == 'trange' and not exact):
+            return b.get_range_samples(x, y)
+        if op == 'nprange':
+            return b.get_range_samples(np.int64(x), np.int64(y))
+        if op == 'trange':
+            return b.get_range(x / fs, y / fs)
+        if op == 'latest1':
+            return b.get_latest_samples(x)
+        if op == 'tlatest' and exact:
+            return b.get_latest(x / fs, y / fs)
+        return b.get_latest_samples(x, y)
+
+    def _run_stream(self, P, c, chunks=None):
+        """one detector life; `chunks`: chunk objects shared with another detector (dual cases)"""
+        c = expand(c)
         out, lines = [], []
         fs = c['fs']
+        n_ops = len(c['chunks']) + len(c['queries'])
         try:
-            st = P.edges(c['m'], out.append, initial_state=bool(c['init']),
-                         fs=fs if c['mode'] == 'plain' else 'auto', detect=DET[c['detect']])
+            st = self._detector(P, c, out.append)
             lines.append('ok')
         except ValueError:
-            return ['err ValueError'] + ['bad-op'] * (len(c['chunks']) + len(c['queries']))
+            yield ['err ValueError'] + ['bad-op'] * n_ops
+            return
         s0 = c['s0']
         dead = False
-        for ch in c['chunks']:
+        for i, ch in enumerate(c['chunks']):
             if dead:
                 lines.append('bad-op')
+                yield None
                 continue
-            a = np.array(bits_of(ch), dtype=bool)
-            if c['mode'] == 'pd2':
-                a = P.PipelineData(a[np.newaxis], fs, s0=s0, channel=['ttl'])
+            a = chunks[i] if chunks is not None else self._chunk(P, c, bits_of(ch), s0, i)
             s0 += a.shape[-1]
             k = len(out)
             try:
@@ -302,27 +557,86 @@ class C13(Spec):
             except (ValueError, IndexError, TypeError) as e:
                 lines.append(f'err {type(e).__name__}')
                 dead = True
+                yield None
                 continue
+            if c.get('scrin') and chunks is None:
+                self._scribble_input(a)
             if len(out) != k + 1:
                 lines.append(f'ok-blocks={len(out) - k}')
                 dead = True
+                yield None
                 continue
             lines.append(self._fmt(out[-1], fs))
+            if c.get('scrout'):
+                self._scribble_events(out[-1])
+                out[-1].start, out[-1].end = out[-1].start - 3, out[-1].end + 3
+            yield None
+        nblocks = len(out)
+        results = []
         for q in c['queries']:
             try:
-                if q[0] == 'range':
-                    r = out[q[1]].get_range_samples(q[2], q[3]) if q[1] < len(out) else None
-                elif q[0] == 'latest':
-                    r = out[q[1]].get_latest_samples(q[2], q[3]) if q[1] < len(out) else None
-                else:
-                    r = P.combine_events([out[k] for k in q[1]]) if all(k < len(out) for k in q[1]) else None
+                r = self._query(P, out, q, fs)
                 lines.append('bad-op' if r is None else self._fmt(r, fs))
+                if r is not None and q[0].endswith('S'):
+                    out.append(r)
+                    r = None                       # kept as a block: not overwritten below
+                results.append(r)
             except (ValueError, IndexError, TypeError) as e:
                 lines.append(f'err {type(e).__name__}')
+                results.append(None)
+        if c['queries'] and not c.get('scrout'):
+            # the caller overwrites what the queries returned; the blocks and the answers must not change
+            for r in results:
+                if r is not None:
+                    self._scribble_events(r)
+            base = 1 + len(c['chunks'])
+            for j, q in enumerate(c['queries']):
+                if q[0].endswith('S'):
+                    continue
+                try:
+                    r2 = self._query(P, out, q, fs)
+                    again = 'bad-op' if r2 is None else self._fmt(r2, fs)
+                except (ValueError, IndexError, TypeError) as e:
+                    again = f'err {type(e).__name__}'
+                if again != lines[base + j]:
+                    lines[base + j] += ' REPEAT-DIFFERS'
+            # emitted blocks unchanged by all the queries / merges
+            sent = [i for i, l in enumerate(lines[1:base]) if l.startswith('ok ')]
+            for k, i in enumerate(sent[:nblocks]):
+                if self._fmt(out[k], fs) != lines[1 + i]:
+                    lines[1 + i] += ' BLOCK-MODIFIED'
+        yield lines
+
+    def impl_lines(self, c):
+        from psiaudio import pipeline as P
+        if c['kind'] == 'dual':
+            a, b = c['a'], c['b']
+            s0, chunks = a['s0'], []
+            for i, ch in enumerate(a['chunks']):
+                chunks.append(self._chunk(P, a, bits_of(ch), s0, i))
+                s0 += chunks[-1].shape[-1]
+            ga, gb = self._run_stream(P, a, chunks), self._run_stream(P, b, chunks)
+            ra = rb = None
+            while ra is None or rb is None:          # alternate: chunk i to detector A, chunk i to detector B, ...
+                if ra is None:
+                    ra = next(ga)
+                if rb is None:
+                    rb = next(gb)
+            return ra + rb
+        *_, lines = self._run_stream(P, c)
         return lines
 
     # ---- the property, on the implementation's outputs -------------------
     def oracle(self, c, out):
+        if c['kind'] == 'dual':
+            na = len(self.model_lines(c['a']))
+            for name, sub, o in (('A', c['a'], out[:na]), ('B', c['b'], out[na:])):
+                f = self.oracle(sub, o)
+                if f is not None:
+                    return (f'two detectors fed the same chunks alternately (A: m={c["a"]["m"]} {c["a"]["detect"]} init={c["a"]["init"]}; '
+                            f'B: m={c["b"]["m"]} {c["b"]["detect"]} init={c["b"]["init"]}), detector {name}: {f}')
+            return None
+        c = expand(c)
         m = c['m']
         if m < 1:
             return None          # outside the quantifier (debounce lengths >= 1)
@@ -332,7 +646,11 @@ class C13(Spec):
             return None
         for l in out:
             if 'TS-MISMATCH' in l:
-                return f'event times are not sample / fs, or fs not propagated: {l}'
+                return f'event times are not sample / fs, or fs not propagated: {l[:200]}'
+            if 'BLOCK-MODIFIED' in l:
+                return f'an emitted block was changed by the queries / merges made on it: {l[:200]}'
+            if 'REPEAT-DIFFERS' in l:
+                return f'the same query gives another answer after the caller overwrote the first result: {l[:200]}'
         nch = len(c['chunks'])
         sends = out[1:1 + nch]
         blocks = [parse_block(l) for l in sends]
@@ -352,13 +670,15 @@ class C13(Spec):
         base = c['s0']
         want = [(k, p + base) for k, p in transitions(init, x) if c['detect'] in ('b', k)]
         got = [ev for _, _, evs in blocks for ev in evs]
-        if len(set(got)) != len(got):
-            return f'an event is reported more than once: {got}'
-        extra = [g for g in got if g not in want]
+        gotset, wantset = set(got), set(want)
+        if len(gotset) != len(got):
+            dup = sorted(g for g in gotset if got.count(g) > 1)[:5] if len(got) < 2000 else '...'
+            return f'an event is reported more than once: {dup}'
+        extra = [g for g in got if g not in wantset]
         if extra:
-            return f'reported events {extra} are not transitions of the stream (true transitions {want})'
-        if got != [w for w in want if w in got]:
-            return f'events out of order: {got}'
+            return f'reported events {extra[:8]} are not transitions of the stream (true transitions {want[:12]}{"..." if len(want) > 12 else ""})'
+        if got != [w for w in want if w in gotset]:
+            return f'events out of order: {got[:20]}'
         # every transition followed by m further samples must have been reported, by the chunk that delivered them
         cum = list(itertools.accumulate(sizes))
         when = {}
@@ -374,33 +694,39 @@ class C13(Spec):
             if due is not None and ((k, pabs) not in when or when[(k, pabs)] > due):
                 return (f'transition {k}@{pabs} not reported within {m} further samples '
                         f'(chunks {sizes}, reported in block {when.get((k, pabs))}, due by block {due})')
-        # queries
+        # queries (on emitted blocks and, after an ...S query, on earlier query results)
+        allb = list(blocks)
         for q, l in zip(c['queries'], out[1 + nch:]):
-            if q[0] in ('range', 'latest'):
-                s, e, evs = blocks[q[1]]
-                a, b = (q[2], q[3]) if q[0] == 'range' else (q[2] + e, q[3] + e)
-                r = parse_block(l)
-                if r is None:
-                    if s <= a and b <= e:
-                        return f'{q} inside the span [{s},{e}) of the block failed: {l}'
-                    continue
-                inside = [ev for ev in evs if a <= ev[1] < b]
-                if r[2] != inside or (r[0], r[1]) != (a, b):
-                    return f'{q} on block [{s},{e}) {evs} returned {r}, events inside the range are {inside}'
+            r = parse_block(l)
+            if q[0] in RANGE_OPS or q[0] in LATEST_OPS:
+                if q[1] < len(allb):
+                    s, e, evs = allb[q[1]]
+                    a, b = (q[2], q[3]) if q[0] in RANGE_OPS else (q[2] + e, q[3] + e)
+                    if r is None:
+                        if s <= a and b <= e:
+                            return f'{q} inside the span [{s},{e}) of the block failed: {l}'
+                    else:
+                        inside = [ev for ev in evs if a <= ev[1] < b]
+                        if r[2] != inside or (r[0], r[1]) != (a, b):
+                            return f'{q} on block [{s},{e}) {evs[:20]} returned {r}, events inside the range are {inside}'
             else:
                 ks = q[1]
-                adjacent = len(ks) >= 1 and all(blocks[i][1] == blocks[j][0] for i, j in zip(ks, ks[1:]))
-                if not adjacent:
-                    continue
-                r = parse_block(l)
-                allev = [ev for k in ks for ev in blocks[k][2]]
-                if r is None:
-                    return f'merging adjacent blocks {ks} failed: {l}'
-                if r[2] != allev or r[0] != blocks[ks[0]][0] or r[1] != blocks[ks[-1]][1]:
-                    return f'merging blocks {ks} gave {r}, expected span [{blocks[ks[0]][0]},{blocks[ks[-1]][1]}) events {allev}'
+                if all(k < len(allb) for k in ks) and len(ks) >= 1 and all(allb[i][1] == allb[j][0] for i, j in zip(ks, ks[1:])):
+                    allev = [ev for k in ks for ev in allb[k][2]]
+                    if r is None:
+                        return f'merging adjacent blocks {ks[:20]} failed: {l}'
+                    if r[2] != allev or r[0] != allb[ks[0]][0] or r[1] != allb[ks[-1]][1]:
+                        return (f'merging blocks {ks[:20]} gave [{r[0]},{r[1]}) with {len(r[2])} events {r[2][:10]}, expected span '
+                                f'[{allb[ks[0]][0]},{allb[ks[-1]][1]}) with {len(allev)} events {allev[:10]}')
+            if q[0].endswith('S') and r is not None:
+                allb.append(r)
         return None
 
     def nontrivial(self, c, out):
+        if c['kind'] == 'dual':
+            na = len(self.model_lines(c['a']))
+            return self.nontrivial(c['a'], out[:na]) and self.nontrivial(c['b'], out[na:])
+        c = expand(c)
         # side channel (runs in the parent process): count events outside their block's declared span
         for l in out[1:1 + len(c['chunks'])]:
             b = parse_block(l.replace(' TS-MISMATCH', ''))
@@ -411,13 +737,22 @@ class C13(Spec):
         return len(c['chunks']) >= 2 and len(runs_of([bool(c['init'])] + x)) >= 2
 
     def kind(self, c):
+        if c['kind'] in ('dual', 'big'):
+            return c['kind']
         x = [b for ch in c['chunks'] for b in bits_of(ch)]
         if c['m'] < 1:
             return 'malformed'
-        return ('clean-' if in_quantifier(bool(c['init']), x, c['m']) else 'unclean-') + c['mode']
+        tag = '+rep' if c.get('rep') else ''
+        tag += '+scribble' if c.get('scrin') or c.get('scrout') else ''
+        return ('clean-' if in_quantifier(bool(c['init']), x, c['m']) else 'unclean-') + c['mode'] + tag
 
     # ---- search / shrink -------------------------------------------------
     def neighbours(self, c, rng):
+        if c['kind'] == 'dual':
+            yield c['a']
+            yield c['b']
+            return
+        c = expand(c)
         x = [b for ch in c['chunks'] for b in bits_of(ch)]
         n = len(x)
         for cut in range(1, n):
@@ -436,6 +771,21 @@ class C13(Spec):
             yield d
 
     def shrink_candidates(self, c):
+        if c['kind'] == 'dual':
+            yield c['a']
+            yield c['b']
+            for sa, sb in zip(self.shrink_candidates(c['a']), self.shrink_candidates(c['b'])):
+                if sa['chunks'] == sb['chunks']:
+                    yield {'kind': 'dual', 'a': sa, 'b': sb}
+            return
+        if c['kind'] == 'big':
+            yield expand(c)
+            return
+        if c.get('rep'):
+            for k in c['rep']:
+                d = dict(c)
+                d['rep'] = {a: b for a, b in c['rep'].items() if a != k}
+                yield d
         if c['queries']:
             for i in range(len(c['queries'])):
                 d = dict(c)
@@ -469,7 +819,12 @@ class C13(Spec):
             yield d
 
     def describe(self, c):
-        return (f"edges(min_samples={c['m']}, initial_state={bool(c['init'])}, detect={DET[c['detect']]}, {c['mode']}, "
+        if c['kind'] == 'dual':
+            return 'two detectors, same chunk objects, alternately: A = ' + self.describe(c['a']) + ' ; B = ' + self.describe(c['b'])
+        if c['kind'] == 'big':
+            return f'long stream (expanded deterministically from) {c}'
+        extra = ''.join(f'; {k}={c[k]}' for k in ('rep', 'scrin', 'scrout') if c.get(k))
+        return extra.lstrip('; ') + (' ' if extra else '') + (f"edges(min_samples={c['m']}, initial_state={bool(c['init'])}, detect={DET[c['detect']]}, {c['mode']}, "
                 f"first s0={c['s0']}, fs={c['fs']}); chunks {c['chunks']}; queries {c['queries']}")
 
 
